@@ -53,45 +53,51 @@ def plan_cases(ctx):
     rng = ctx.rng
     quick = ctx.quick
     reps = (["scalar"] * 6 + ["array1d"] * 6 + ["array2d"] * 3 + ["fun1d"] * 6 + ["fun1d_scalar"] * 3 + ["fun2d"] * 4
-            + ["mixed1d"] * 4 + ["interp1d"] * 5 + ["interp2d"] * 3 + ["eqmap"] * 3)
+            + ["mixed1d"] * 4 + ["interp1d"] * 5 + ["interp2d"] * 3 + ["eqmap"] * 4)
     if not quick:
-        reps = reps * 28
+        reps = reps * 12
     cases = []
     # every Z of the property at least once per run
     zs = list(range(1, 19))
     rng.shuffle(zs)
     for i, rep in enumerate(reps):
         stream = "well" if rng.random() < 0.6 else "wide"
-        cases.append(impl.gen_case(rng, i, rep, stream, z=zs[i] if i < 18 else None))
+        cases.append(impl.gen_case(rng, i, rep, stream, z=zs[i] if i < 18 else None,
+                                   force_donor=rep in ("eqmap", "interp1d", "interp2d") and i % 2 == 0))
     return cases
 
 
+ILL_TABLES = [  # (stub tag, Z, n_e, t_e): rate tables rate_value(tag, ., 1e-20, 7 decades, n_e, t_e), found by a random scan
+    ("ill201", 16, 2.7814231298640183e+19, 645.0),
+    ("ill230", 18, 1.734786576463115e+19, 952.0),
+    ("ill120", 18, 7.371491870080028e+19, 429.5),
+]
+
+
 def ill_conditioned_probe(ctx, ib):
-    """Rate tables spanning 5 decades with non-monotone S_z/R_(z+1): the bounded least-squares solve of
-    line 240 is ill-conditioned there and returns fractions far from the unique solution.  Reported
-    under one stable key (a genuine numerical defect of the solver choice, see known_findings.txt)."""
-    import random
-    rng = random.Random(ctx.rng.getrandbits(32))
+    """Positive rate tables spanning 7 decades (1e-20 .. 1e-13 m^3/s, the magnitudes of real ADAS data) with
+    non-monotone S_z/R_(z+1): the bounded least-squares solve of line 240 is ill-conditioned there and returns
+    fractions far from the unique solution of the balance equations.  Reported under one stable key (a genuine
+    numerical defect of the solver choice, see known_findings.txt).  Fixed tables only: random scans of this
+    regime occasionally make lsq_linear iterate for minutes."""
     worst = None
-    n = 0
-    for it in range(40 if ctx.quick else 400):
-        z = rng.randint(8, 18)
-        case = {"Z": z, "tag": "ill%d" % rng.getrandbits(32), "scale": 10.0 ** rng.uniform(-18, -15), "span": 5.0,
-                "donor": None}
-        n_e, t_e = 10.0 ** rng.uniform(18.5, 19.5), rng.uniform(1, 1000)
-        ad = impl.make_stub(case["tag"], case["scale"], case["span"])
+    for tag, z, n_e, t_e in ILL_TABLES:
+        case = {"Z": z, "tag": tag, "scale": 1e-20, "span": 7.0, "donor": None}
+        ad = impl.make_stub(tag, 1e-20, 7.0)
         out = ib.fractional_abundance(ad, impl.element(z), n_e, t_e)
         f = [float(out[c][0]) for c in range(z + 1)]
         ion, rec, cx = impl.point_rates(case, n_e, t_e)
-        ex, _ = impl.closed_form(ion, rec, None, n_e, 0.0)
+        ex, reff = impl.closed_form(ion, rec, None, n_e, 0.0)
         dev = max(abs(F(a) - b) for a, b in zip(f, ex))
-        n += 1
+        rel_bal = max(abs(F(f[k]) * F(ion[k]) - F(f[k + 1]) * reff[k]) / max(F(f[k]) * F(ion[k]), F(f[k + 1]) * reff[k], F(1, 10 ** 300))
+                      for k in range(z))
         if worst is None or dev > worst[0]:
             worst = (dev, {"Z": z, "n_e": n_e, "t_e": t_e, "ion": ion, "rec": rec, "impl_fractions": f,
                            "exact_fractions": [float(v) for v in ex], "sum_impl": float(sum(f)),
-                           "max_abs_deviation": float(dev), "stub_tag": case["tag"], "stub_scale": case["scale"],
+                           "max_abs_deviation": float(dev), "worst_pairwise_relative_imbalance": float(rel_bal),
+                           "stub_tag": tag, "stub_scale": 1e-20, "stub_span_decades": 7.0,
                            "entry_point": "fractional_abundance(scalar n_e, t_e), no donor"})
-    return n, worst
+    return len(ILL_TABLES), worst
 
 
 def run(ctx):
@@ -148,8 +154,24 @@ def run(ctx):
             "zero_donor_points": 0, "matrix_captured_points": 0, "lerp_values": 0}
     search_fails = []
     lsq_unseen = 0
+    crashed = []
     for case in cases:
-        pts = impl.run_case(ib, rec, case, {"equilibrium": equilibrium})
+        try:
+            pts = impl.run_case(ib, rec, case, {"equilibrium": equilibrium})
+        except Exception as ex:      # an exception (or a non-finite result) on a valid input is a finding, not a harness fault
+            import traceback
+            rec.on = False
+            kind = "non-finite" if isinstance(ex, impl.NonFinite) else type(ex).__name__
+            crashed.append(case)
+            ctx.obligation("case %s (%s, Z=%d) ran" % (case["idx"], case["rep"], case["Z"]), "correspondence", False, traceback.format_exc())
+            ctx.violation("c09:exception:%s:%s" % (kind, case["rep"]),
+                          "entry points raised %s / returned a non-finite value on a valid input (%s case, Z=%d, donor %s): %s"
+                          % (kind, case["rep"], case["Z"], case["donor_mode"], str(ex)[:300]),
+                          {"case": {kk: vv for kk, vv in case.items() if kk not in ("points", "lerp", "eq_neut", "fv")},
+                           "traceback": traceback.format_exc()[-1500:],
+                           "how": "harness/c09_impl.py run_case(case) rebuilds the inputs from case['sub'] (seeded) and calls the entry points"},
+                          found=True)
+            continue
         case["points"] = pts
         for key, val in (("rep", case["rep"]), ("stream", case["stream"]), ("Z", str(case["Z"])),
                          ("donor_mode", case["donor_mode"]), ("species", str(case["n_species"]))):
@@ -166,16 +188,15 @@ def run(ctx):
                 dist["infeasible_neutrality"] += 1
     ctx.log("implementation: %d cases, %d points in %.1fs" % (len(cases), len(all_points), time.time() - t0))
 
+    cases = [c for c in cases if "points" in c]
     # ---- write case files: all points of a case in one file, <= ~40 points per file --------------------
-    shards, cur, cur_n = [], [], 0
-    for case in cases:
-        cur.append(case)
-        cur_n += len(case["points"])
-        if cur_n >= (24 if ctx.quick else 60):
-            shards.append(cur)
-            cur, cur_n = [], 0
-    if cur:
-        shards.append(cur)
+    n_bins = max(1, min(16 if ctx.quick else 64, len(cases)))
+    bins = [[0.0, []] for _ in range(n_bins)]
+    for case in sorted(cases, key=lambda c: -len(c["points"]) * (c["Z"] + 1) ** 2):
+        tgt = min(bins, key=lambda bn: bn[0])        # balance the estimated Coq cost (points x Z^2) over the files
+        tgt[0] += len(case["points"]) * (case["Z"] + 1) ** 2
+        tgt[1].append(case)
+    shards = [bn[1] for bn in bins if bn[1]]
     files = []
     n_outs = 0
     for si, shard in enumerate(shards):
@@ -257,11 +278,21 @@ def run(ctx):
                         fails.append(("the CX donor has no effect on the result",
                                       "%s: neutral fraction %.6g, with donor %.6g, without %.6g" % (
                                           o["src"], float(f0), float(ex[0]), float(ex0[0]))))
+        # values of interpolators / equilibrium-mapped functions between knots: linear interpolation of the knots' exact values
+        for le in case.get("lerp", []):
+            if le["k"] == k:
+                po = case["points"][le["other"]]
+                exo, _ = impl.closed_form(po["ion"], po["rec"], po["cx"], po["n_e"], po["n_d"])
+                sa, sb = (F(le["n_el"][0]), F(le["n_el"][1])) if le["scale"] is None else (F(le["scale"]), F(le["scale"]))
+                want = [(1 - le["w"]) * a * sa + le["w"] * b * sb for a, b in zip(ex, exo)]
+                if max(abs(F(v) - wv) for v, wv in zip(le["values"], want)) > F(tol + impl.TOL_INTERP) * max(sa, sb):
+                    fails.append(("value of an interpolated / equilibrium-mapped entry point differs from the balance solution",
+                                  "%s: %s vs %s" % (le["src"], le["values"][:4], [float(v) for v in want[:4]])))
         # equilibrium-mapped neutrality densities on the knots' flux surfaces (cubic between knots)
         for en in case.get("eq_neut", []):
             if en["k"] == k:
                 ref = [o for o in pt["outs"] if o["kind"] == "neut"][0]["values"]
-                scale = max(ref)
+                scale = max(max(o["values"]) for q in case["points"] for o in q["outs"] if o["kind"] == "neut")   # of the whole profile
                 dpsi = abs(en["psin_at_r"] - case["fv"][k])
                 if max(abs(a - b) for a, b in zip(en["values"], ref)) > 1e-3 * scale + 20.0 * scale * dpsi:
                     fails.append(("equilibrium-mapped neutrality densities differ from the profile on the knot's flux surface",
@@ -301,7 +332,7 @@ def run(ctx):
     if ill_found:
         ctx.violation(KNOWN_KEY,
                       "fractional_abundance returns fractions far from the unique solution of the balance equations for a rate table "
-                      "spanning 5 decades (Z=%d: max deviation %.3g, sum %.6g): the bounded least-squares solve is ill-conditioned"
+                      "spanning 7 decades, 1e-20..1e-13 m^3/s (Z=%d: max deviation %.3g, sum %.6g): the bounded least-squares solve is ill-conditioned"
                       % (ill[1]["Z"], ill[1]["max_abs_deviation"], ill[1]["sum_impl"]), ill[1], found=True)
 
     ctx.coverage.update({
